@@ -96,7 +96,7 @@ def python_pre_pass(case, stats):
 def worker(widx, seed, tier, stats):
     from vlib import gen
     runner.run_given(gen.schema_with_values(CAMPAIGN.gen_opts()), python_pre_pass, seed + 7,
-                     {'quick': 60, 'thorough': 1500}[tier], stats)
+                     {'quick': 60, 'thorough': 400}[tier], stats)
     if not stats.violations:
         CAMPAIGN.worker(widx, seed, tier, stats, {'quick': 2, 'thorough': 40}[tier])
 
